@@ -792,7 +792,7 @@ impl Rasn {
                                 let identifier = t.linked_fields.iter().map(|l|
                                     self.to_rust_snake_case(&l.field_name)
                                 );
-                                let field_name = iofr.field_path.last().unwrap().identifier().replace('&', "");
+                                let field_name = iofr.field_path.last().unwrap().identifier().replace('&', "").replace('-', "_");
                                 if field_name.starts_with(|initial: char| initial.is_lowercase()) {
                                     // Fixed-value fields of Information Object usages should have been resolved at this point
                                     return;
@@ -994,7 +994,7 @@ impl Rasn {
 
             let mut field_enums = vec![];
             for (field_name, fields) in choices.iter() {
-                let field_enum_name = format_ident!("{name}_{}", field_name.replace('&', ""));
+                let field_enum_name = format_ident!("{name}_{}", field_name.replace('&', "").replace('-', "_"));
                 let (mut ids, mut inner_types) = (vec![], vec![]);
                 for (index, (id, ty)) in fields.iter().enumerate() {
                     let identifier_value = match id {
